@@ -22,7 +22,7 @@ STUB = []
 ASSUMPTIONS = ["indices in range, as the property states", "no fault kinds apply to an in-memory structure without I/O"]
 TIERS = {
     "quick": {"runs": 96000, "block": 3000, "budget_s": 60},
-    "thorough": {"runs": 800000, "block": 5000, "budget_s": 900},
+    "thorough": {"runs": 20000000, "block": 5000, "budget_s": 900},
 }
 
 
